@@ -51,6 +51,10 @@ def strategy(tier):
         vctx=gen.counter(), nvctx=gen.counter(),
         extra_threads=st.lists(thread_st(), min_size=0, max_size=nthreads - 1),
         leader_pos=st.integers(0, 11),
+        # /proc/PID/stat carries the thread-group totals, /proc/PID/task/PID/stat
+        # the leader's own ticks: None = equal (single-threaded look), else the
+        # leader's own figures
+        leader_own=st.one_of(st.none(), st.tuples(gen.counter(), gen.counter())),
         btime=st.one_of(st.sampled_from([0, 1, 1700000000, 2**31 - 1, 2**32]),
                         st.integers(0, 2**33)),
         ttys=st.lists(
@@ -115,8 +119,8 @@ def build(case):
     for i, t in enumerate(case["extra_threads"]):
         threads.append(simk.Thread(pid + 1 + i * 3, t["comm"], t["utime"],
                                    t["stime"], t["state"]))
-    leader = simk.Thread(pid, case["comm"], case["utime"], case["stime"],
-                         case["state"])
+    lu, ls = case.get("leader_own") or (case["utime"], case["stime"])
+    leader = simk.Thread(pid, case["comm"], lu, ls, case["state"])
     pos = case["leader_pos"] % (len(threads) + 1)
     threads.insert(pos, leader)
     ttys = [tuple(t) for t in case["ttys"]]
@@ -224,6 +228,7 @@ def run_case(case):
     f = features(case)
     labels = sorted(f) + ["oneshot" if case["oneshot"] else "plain",
                           "threads=%d" % min(nthr, 4),
+                          "leader-own-ticks" if case.get("leader_own") else "leader=process",
                           "tty" if ttymap.get(tty_nr) else "notty"]
     nontrivial = None
     if f - {"oldrec52"}:
